@@ -1,11 +1,731 @@
-//! C32 (not built yet)
-use crate::report::{Disagreement, Run};
-use serde_json::Value;
+//! C32 Defined names are stable under edits.
+//!
+//! History enumeration (every word of length <= 2 quick, <= 3 thorough) on a workbook with a global cell
+//! name, a global range name, a sheet-local name shadowing the global cell name and a LAMBDA name (whose body
+//! has a decimal and a multi-argument call), and cells on three sheets reading them. Alphabet: set language
+//! x5, set locale x6, rename / move / delete / duplicate / add sheet, rename a name, re-scope a name,
+//! to_bytes+from_bytes, xlsx export+import, insert / delete rows. The last operation of each word is judged:
+//! the STORED English formula of every name must be unchanged by everything that does not edit it (language,
+//! locale, both round trips, operations on other sheets), must follow a rename of its sheet exactly, and every
+//! cell reading a name keeps its value; renaming a name rewrites the formulas bound to it and no other.
 
-pub fn run(run: &mut Run) {
-    run.machinery_errors.push("C32: check not built yet".into());
+use crate::props::c17::{printed, replace_qualifier};
+use crate::report::{Disagreement, Run};
+use ironcalc_base::cell::CellValue;
+use ironcalc_base::{Model, UserModel};
+use serde::{Deserialize, Serialize};
+use serde_json::{json, Value};
+use std::collections::{BTreeMap, HashSet};
+use std::sync::OnceLock;
+
+pub const LANGS: [&str; 5] = ["en", "es", "fr", "de", "it"];
+const COL: i32 = 3;
+const ROWS: i32 = 12;
+
+#[derive(Clone, PartialEq, Debug, Serialize, Deserialize)]
+pub enum Op {
+    Language(String),
+    Locale(String),
+    RenameSheet(u32, String),
+    MoveSheet(u32, u32),
+    DeleteSheet(u32),
+    DuplicateSheet(u32),
+    NewSheet,
+    /// rename the name (name, scope) to the new name, same scope and formula
+    RenameName(String, Option<u32>, String),
+    /// move the name (name, scope) to the new scope, same name and formula
+    Rescope(String, Option<u32>, Option<u32>),
+    BytesRoundTrip,
+    XlsxRoundTrip,
+    InsertRows(u32, i32, i32),
+    DeleteRows(u32, i32, i32),
 }
 
-pub fn replay(_case: &Value) -> Vec<Disagreement> {
-    vec![]
+impl Op {
+    fn kind(&self) -> &'static str {
+        match self {
+            Op::Language(_) => "set-language",
+            Op::Locale(_) => "set-locale",
+            Op::RenameSheet(..) => "rename-sheet",
+            Op::MoveSheet(..) => "move-sheet",
+            Op::DeleteSheet(..) => "delete-sheet",
+            Op::DuplicateSheet(..) => "duplicate-sheet",
+            Op::NewSheet => "new-sheet",
+            Op::RenameName(..) => "rename-name",
+            Op::Rescope(..) => "rescope-name",
+            Op::BytesRoundTrip => "bytes-round-trip",
+            Op::XlsxRoundTrip => "xlsx-round-trip",
+            Op::InsertRows(..) => "insert-rows",
+            Op::DeleteRows(..) => "delete-rows",
+        }
+    }
+}
+
+pub fn locales() -> Vec<String> {
+    let have = ironcalc_base::get_supported_locales();
+    let mut v: Vec<String> = ["en", "en-GB", "de", "fr", "es", "it"]
+        .iter()
+        .filter(|l| have.iter().any(|h| h == *l))
+        .map(|s| s.to_string())
+        .collect();
+    let mut rest: Vec<String> = have.into_iter().filter(|h| !v.contains(h)).collect();
+    rest.sort();
+    while v.len() < 6 && !rest.is_empty() {
+        v.push(rest.remove(0));
+    }
+    v
+}
+
+pub fn alphabet() -> Vec<Op> {
+    let s = |x: &str| x.to_string();
+    let mut v = vec![];
+    for l in LANGS {
+        v.push(Op::Language(s(l)));
+    }
+    for l in locales() {
+        v.push(Op::Locale(l));
+    }
+    v.extend(vec![
+        Op::RenameSheet(0, s("Data")),
+        Op::RenameSheet(1, s("Loc Al")),
+        Op::RenameSheet(2, s("Other")),
+        Op::MoveSheet(0, 2),
+        Op::MoveSheet(2, 0),
+        Op::DeleteSheet(2),
+        Op::DeleteSheet(1),
+        Op::DuplicateSheet(0),
+        Op::DuplicateSheet(2),
+        Op::NewSheet,
+        Op::RenameName(s("gcell"), None, s("gcell2")),
+        Op::RenameName(s("grange"), None, s("rng")),
+        Op::RenameName(s("addtax"), None, s("plus")),
+        Op::RenameName(s("gcell"), Some(1), s("lcell")),
+        Op::Rescope(s("grange"), None, Some(0)),
+        Op::Rescope(s("gcell"), Some(1), Some(2)),
+        Op::BytesRoundTrip,
+        Op::XlsxRoundTrip,
+        Op::InsertRows(0, 2, 1),
+        Op::InsertRows(2, 1, 1),
+        Op::DeleteRows(0, 5, 1),
+        Op::DeleteRows(2, 1, 1),
+    ]);
+    v
+}
+
+fn seed_bytes() -> &'static [u8] {
+    static B: OnceLock<Vec<u8>> = OnceLock::new();
+    B.get_or_init(|| {
+        let mut m = Model::new_empty("c32", "en", "UTC", "en").expect("new_empty");
+        m.add_sheet("Sheet2").expect("add");
+        m.add_sheet("Sheet3").expect("add");
+        for (s, r, v) in [(0, 1, "7"), (0, 2, "3"), (0, 3, "0.25"), (1, 1, "100"), (2, 1, "5")] {
+            m.set_user_input(s, r, 1, v.to_string()).expect("input");
+        }
+        m.new_defined_name("gcell", None, "Sheet1!$A$1").expect("name");
+        m.new_defined_name("grange", None, "Sheet1!$A$1:$A$3").expect("name");
+        m.new_defined_name("gcell", Some(1), "Sheet2!$A$1").expect("name");
+        m.new_defined_name("addtax", None, "=LAMBDA(x,x*1.5+SUM(Sheet1!$A$1:$A$2,0.5))").expect("lambda name");
+        for (s, r, f) in [
+            (0, 1, "=gcell*2"),
+            (0, 3, "=SUM(grange)"),
+            (0, 4, "=addtax(10)"),
+            (1, 1, "=gcell*2"),
+            (1, 3, "=SUM(grange)"),
+            (2, 2, "=gcell+SUM(grange)"),
+            (2, 3, "=addtax(1)"),
+        ] {
+            m.set_user_input(s, r, COL, f.to_string()).expect("formula");
+        }
+        m.evaluate();
+        m.to_bytes()
+    })
+}
+
+fn static_lang(l: &str) -> &'static str {
+    LANGS.iter().find(|x| **x == l).copied().unwrap_or("en")
+}
+
+/// Applies one operation; round trips replace the model.
+fn apply(um: UserModel<'static>, op: &Op) -> Result<UserModel<'static>, (String, Option<UserModel<'static>>)> {
+    let mut um = um;
+    let name_formula = |um: &UserModel, name: &str, scope: Option<u32>| -> Result<String, String> {
+        um.get_defined_name_list()
+            .into_iter()
+            .find(|(n, s, _)| n.eq_ignore_ascii_case(name) && *s == scope)
+            .map(|(_, _, f)| f)
+            .ok_or_else(|| "harness: no such name".to_string())
+    };
+    let r: Result<(), String> = match op {
+        Op::Language(l) => um.set_language(static_lang(l)),
+        Op::Locale(l) => um.set_locale(l),
+        Op::RenameSheet(i, n) => um.rename_sheet(*i, n),
+        Op::MoveSheet(i, j) => um.move_sheet(*i, *j),
+        Op::DeleteSheet(i) => um.delete_sheet(*i),
+        Op::DuplicateSheet(i) => um.duplicate_sheet(*i),
+        Op::NewSheet => um.new_sheet(),
+        Op::RenameName(n, sc, n2) => match name_formula(&um, n, *sc) {
+            Ok(f) => um.update_defined_name(n, *sc, n2, *sc, &f),
+            Err(e) => Err(e),
+        },
+        Op::Rescope(n, sc, sc2) => match name_formula(&um, n, *sc) {
+            Ok(f) => um.update_defined_name(n, *sc, n, *sc2, &f),
+            Err(e) => Err(e),
+        },
+        Op::InsertRows(s, r, n) => um.insert_rows(*s, *r, *n),
+        Op::DeleteRows(s, r, n) => um.delete_rows(*s, *r, *n),
+        Op::BytesRoundTrip => {
+            let lang = static_lang(&um.get_language());
+            let b = um.to_bytes();
+            return match UserModel::from_bytes(&b, lang) {
+                Ok(u) => Ok(u),
+                Err(e) => Err((format!("from_bytes: {}", e), Some(um))),
+            };
+        }
+        Op::XlsxRoundTrip => {
+            let lang = static_lang(&um.get_language());
+            let locale = um.get_locale();
+            let bytes = match crate::xlsxutil::export_bytes(um.get_model()) {
+                Ok(b) => b,
+                Err(e) => return Err((format!("export: {}", e), Some(um))),
+            };
+            return match crate::xlsxutil::import_model(&bytes, lang) {
+                Ok(m) => {
+                    let mut u = UserModel::from_model(m);
+                    // the importer is given a locale by its caller; give it the one the workbook had
+                    match u.set_locale(&locale) {
+                        Ok(()) => Ok(u),
+                        Err(e) => Err((format!("set_locale after import: {}", e), Some(u))),
+                    }
+                }
+                Err(e) => Err((format!("import: {}", e), Some(um))),
+            };
+        }
+    };
+    match r {
+        Ok(()) => Ok(um),
+        Err(e) => Err((e, Some(um))),
+    }
+}
+
+#[derive(Clone, Debug)]
+pub struct NameObs {
+    name: String,
+    /// scope as sheet position
+    scope: Option<usize>,
+    stored: String,
+}
+
+pub struct Snap {
+    sheets: Vec<String>,
+    names: Vec<NameObs>,
+    /// (sheet position, row) -> (formula text, value)
+    readers: BTreeMap<(usize, i32), (String, String)>,
+}
+
+fn value_text(v: &Result<CellValue, String>) -> String {
+    match v {
+        Ok(CellValue::None) => "<empty>".into(),
+        Ok(CellValue::String(s)) => format!("\"{}\"", s),
+        Ok(CellValue::Number(n)) => format!("{:?}", n),
+        Ok(CellValue::Boolean(b)) => format!("{}", b),
+        Err(e) => format!("<error {}>", e),
+    }
+}
+
+fn snap(um: &UserModel) -> Snap {
+    let m = um.get_model();
+    let sheets: Vec<String> = m.workbook.worksheets.iter().map(|w| w.get_name()).collect();
+    let ids: Vec<u32> = m.workbook.worksheets.iter().map(|w| w.sheet_id).collect();
+    let names = m
+        .workbook
+        .defined_names
+        .iter()
+        .map(|d| NameObs {
+            name: d.name.clone(),
+            scope: d.sheet_id.and_then(|id| ids.iter().position(|x| *x == id)).or(d.sheet_id.map(|_| usize::MAX)),
+            // the spelling with or without a leading `=` is the same formula
+            stored: d.formula.trim_start().strip_prefix('=').unwrap_or(d.formula.trim_start()).to_string(),
+        })
+        .collect();
+    let mut readers = BTreeMap::new();
+    for s in 0..sheets.len() {
+        for row in 1..=ROWS {
+            let text = m.get_cell_formula(s as u32, row, COL).ok().flatten().unwrap_or_default();
+            if !text.is_empty() {
+                readers.insert((s, row), (text, value_text(&m.get_cell_value_by_index(s as u32, row, COL))));
+            }
+        }
+    }
+    Snap { sheets, names, readers }
+}
+
+fn name_kind(n: &NameObs) -> String {
+    let shape = if n.stored.to_uppercase().contains("LAMBDA") {
+        "lambda"
+    } else if n.stored.contains(':') {
+        "range"
+    } else {
+        "cell"
+    };
+    format!("{}-{}", if n.scope.is_some() { "local" } else { "global" }, shape)
+}
+
+/// where the sheet at position `p` is after the operation (None: deleted)
+fn pos_after(op: &Op, p: usize) -> Option<usize> {
+    match op {
+        Op::MoveSheet(i, j) => {
+            let (i, j) = (*i as usize, *j as usize);
+            if p == i {
+                Some(j)
+            } else if i < j && p > i && p <= j {
+                Some(p - 1)
+            } else if j < i && p >= j && p < i {
+                Some(p + 1)
+            } else {
+                Some(p)
+            }
+        }
+        Op::DeleteSheet(k) => {
+            let k = *k as usize;
+            if p == k {
+                None
+            } else if p > k {
+                Some(p - 1)
+            } else {
+                Some(p)
+            }
+        }
+        Op::DuplicateSheet(k) => {
+            if p > *k as usize {
+                Some(p + 1)
+            } else {
+                Some(p)
+            }
+        }
+        _ => Some(p),
+    }
+}
+
+fn row_after(op: &Op, p: usize, row: i32) -> Option<i32> {
+    match op {
+        Op::InsertRows(s, r, n) if *s as usize == p && row >= *r => Some(row + n),
+        Op::DeleteRows(s, r, n) if *s as usize == p && row >= *r => {
+            if row < r + n {
+                None
+            } else {
+                Some(row - n)
+            }
+        }
+        _ => Some(row),
+    }
+}
+
+fn references(stored: &str, sheet: &str) -> bool {
+    replace_qualifier(stored, &printed(sheet), "\u{1}") != stored
+}
+
+/// does the stored formula name a sheet that does not exist (in `sheets`)?
+fn over_missing(stored: &str, sheets: &[String]) -> bool {
+    let mut t = stored.to_string();
+    for sh in sheets {
+        t = replace_qualifier(&t, &printed(sh), "");
+    }
+    // existing qualifiers are gone (a bare `!` is left); a missing sheet's name still stands in front of its `!`
+    let b = t.as_bytes();
+    b.iter().enumerate().any(|(i, c)| {
+        *c == b'!' && i > 0 && {
+            let p = b[i - 1] as char;
+            p.is_alphanumeric() || p == '\'' || p == '_'
+        }
+    })
+}
+
+#[derive(Default)]
+pub struct CaseOut {
+    found: Vec<(String, String)>,
+    cut: bool,
+    compared: u64,
+    unspecified: u64,
+    outcome: u128,
+}
+
+pub fn judge(word: &[Op]) -> CaseOut {
+    let mut out = CaseOut::default();
+    let mut um = UserModel::from_bytes(seed_bytes(), "en").expect("seed");
+    let (prefix, last) = word.split_at(word.len() - 1);
+    for p in prefix {
+        match crate::env::guarded(|| apply(um, p)) {
+            Ok(Ok(u)) => um = u,
+            _ => {
+                out.cut = true;
+                return out;
+            }
+        }
+    }
+    um.evaluate();
+    let op = &last[0];
+    let before = snap(&um);
+    let head = format!("op={}", op.kind());
+    // operations that address something that is not there are not judged
+    let n_sheets = before.sheets.len();
+    let addressed_ok = match op {
+        Op::RenameSheet(i, _) | Op::DeleteSheet(i) | Op::DuplicateSheet(i) | Op::InsertRows(i, ..) | Op::DeleteRows(i, ..) => {
+            (*i as usize) < n_sheets
+        }
+        Op::MoveSheet(i, j) => (*i as usize) < n_sheets && (*j as usize) < n_sheets,
+        _ => true,
+    };
+    if !addressed_ok {
+        out.cut = true;
+        return out;
+    }
+    let mut um = match crate::env::guarded(move || apply(um, op)) {
+        Err(p) => {
+            out.found.push((
+                format!("{} panic at={}", head, p.split(" @ ").last().unwrap_or("")),
+                format!("{:?} panicked: {}", op, p),
+            ));
+            return out;
+        }
+        Ok(Err((e, _))) => {
+            // a round trip or a language / locale switch must not fail; the rest may be refused legitimately
+            if matches!(op, Op::BytesRoundTrip | Op::XlsxRoundTrip | Op::Language(_) | Op::Locale(_)) {
+                out.found.push((format!("{} failed", head), format!("{:?} failed: {}", op, e)));
+            } else {
+                out.cut = true;
+            }
+            return out;
+        }
+        Ok(Ok(u)) => u,
+    };
+    um.evaluate();
+    let after = snap(&um);
+    out.outcome = crate::env::digest(&format!(
+        "{:?}{:?}{:?}",
+        after.sheets,
+        after.names.iter().map(|n| (&n.name, n.scope, &n.stored)).collect::<Vec<_>>(),
+        after.readers
+    ));
+    // ---- stored formulas
+    for n in &before.names {
+        let kind = name_kind(n);
+        // where this name should be found afterwards
+        let mut exp_name = n.name.clone();
+        let mut exp_scope = match n.scope {
+            Some(p) if p != usize::MAX => match pos_after(op, p) {
+                Some(q) => Some(q),
+                None => {
+                    out.unspecified += 1; // scoped to the deleted sheet
+                    continue;
+                }
+            },
+            Some(_) => {
+                out.unspecified += 1; // scope already dangling
+                continue;
+            }
+            None => None,
+        };
+        match op {
+            Op::RenameName(name, sc, n2) if n.name.eq_ignore_ascii_case(name) && n.scope == sc.map(|x| x as usize) => {
+                exp_name = n2.clone();
+            }
+            Op::Rescope(name, sc, sc2) if n.name.eq_ignore_ascii_case(name) && n.scope == sc.map(|x| x as usize) => {
+                exp_scope = sc2.map(|x| x as usize);
+            }
+            _ => {}
+        }
+        let expected: Option<String> = match op {
+            Op::RenameSheet(i, new) => {
+                let old = &before.sheets[*i as usize];
+                Some(replace_qualifier(&n.stored, &printed(old), &printed(new)))
+            }
+            Op::DeleteSheet(i) | Op::InsertRows(i, ..) | Op::DeleteRows(i, ..) => {
+                if references(&n.stored, &before.sheets[*i as usize]) {
+                    None
+                } else {
+                    Some(n.stored.clone())
+                }
+            }
+            _ => Some(n.stored.clone()),
+        };
+        let got = after
+            .names
+            .iter()
+            .find(|a| a.name.eq_ignore_ascii_case(&exp_name) && a.scope == exp_scope);
+        match (got, expected) {
+            (None, _) => out.found.push((
+                format!("{} name-lost name={}", head, kind),
+                format!("{:?}: name `{}` (scope {:?}) is not there afterwards; names now: {:?}", op, exp_name, exp_scope,
+                    after.names.iter().map(|a| (&a.name, a.scope)).collect::<Vec<_>>()),
+            )),
+            (Some(_), None) => out.unspecified += 1,
+            (Some(a), Some(e)) => {
+                out.compared += 1;
+                if a.stored != e {
+                    out.found.push((
+                        format!("{} stored-formula name={} over-missing-sheet={}", head, kind, over_missing(&n.stored, &before.sheets)),
+                        format!("{:?}: stored formula of `{}` was `{}`, is `{}`, expected `{}`", op, n.name, n.stored, a.stored, e),
+                    ));
+                }
+            }
+        }
+    }
+    // ---- readers
+    // which definition a reader on sheet position p binds to for identifier `id` (state before)
+    let binds = |p: usize, id: &str| -> Option<Option<usize>> {
+        if before.names.iter().any(|n| n.name.eq_ignore_ascii_case(id) && n.scope == Some(p)) {
+            Some(Some(p))
+        } else if before.names.iter().any(|n| n.name.eq_ignore_ascii_case(id) && n.scope.is_none()) {
+            Some(None)
+        } else {
+            None
+        }
+    };
+    for ((p, row), (text, value)) in &before.readers {
+        let q = match pos_after(op, *p) {
+            Some(q) => q,
+            None => continue,
+        };
+        let r2 = match row_after(op, *p, *row) {
+            Some(r) => r,
+            None => continue,
+        };
+        let (atext, avalue) = match after.readers.get(&(q, r2)) {
+            Some(x) => x.clone(),
+            None => {
+                out.found.push((
+                    format!("{} reader-lost", head),
+                    format!("{:?}: formula `{}` (sheet {}, row {}) is not at sheet {}, row {} afterwards", op, text, p, row, q, r2),
+                ));
+                continue;
+            }
+        };
+        let reads = |id: &str| text.to_lowercase().contains(&id.to_lowercase());
+        let value_specified = match op {
+            // re-scoping changes what a name means where; renaming a name onto/away from a shadowing one too
+            Op::Rescope(..) => false,
+            Op::RenameName(_, _, _) => true,
+            // deleting a sheet breaks the names over it and their readers
+            Op::DeleteSheet(i) => !before.names.iter().any(|n| reads(&n.name) && references(&n.stored, &before.sheets[*i as usize])),
+            // deleting rows may delete what a name points at
+            Op::DeleteRows(i, ..) => !before.names.iter().any(|n| reads(&n.name) && references(&n.stored, &before.sheets[*i as usize])),
+            // error values are spelled in the active language
+            Op::Language(_) => !value.starts_with("\"#"),
+            // a new sheet name can make a broken reference resolve again
+            Op::NewSheet | Op::DuplicateSheet(_) => !value.starts_with("\"#"),
+            _ => true,
+        };
+        if !value_specified {
+            out.unspecified += 1;
+        } else {
+            out.compared += 1;
+            if avalue != *value {
+                let which: Vec<String> = before.names.iter().filter(|n| reads(&n.name)).map(name_kind).collect::<std::collections::BTreeSet<_>>().into_iter().collect();
+                let over = match op {
+                    Op::InsertRows(i, ..) | Op::DeleteRows(i, ..) => format!(
+                        " over-edited-sheet={}",
+                        before.names.iter().any(|n| reads(&n.name) && references(&n.stored, &before.sheets[*i as usize]))
+                    ),
+                    _ => String::new(),
+                };
+                let miss = before.names.iter().any(|n| reads(&n.name) && over_missing(&n.stored, &before.sheets));
+                out.found.push((
+                    format!("{} value{} over-missing-sheet={} reader-of={}", head, over, miss, which.join("+")),
+                    format!("{:?}: `{}` had value {}, now `{}` has value {}", op, text, value, atext, avalue),
+                ));
+            }
+        }
+        if let Op::RenameName(name, sc, n2) = op {
+            let bound = binds(*p, name) == Some(sc.map(|x| x as usize));
+            let exp = if bound && reads(name) { replace_ident(text, name, n2) } else { text.clone() };
+            out.compared += 1;
+            if atext != exp {
+                let nk = before
+                    .names
+                    .iter()
+                    .find(|n| n.name.eq_ignore_ascii_case(name) && n.scope == sc.map(|x| x as usize))
+                    .map(name_kind)
+                    .unwrap_or_default();
+                out.found.push((
+                    format!("{} reader-text name={} bound={}", head, nk, bound),
+                    format!("{:?}: `{}` became `{}`, expected `{}`", op, text, atext, exp),
+                ));
+            }
+        }
+    }
+    let mut seen = HashSet::new();
+    out.found.retain(|(s, _)| seen.insert(s.clone()));
+    out
+}
+
+/// replaces the identifier `old` (whole word, any letter case) by `new`
+fn replace_ident(text: &str, old: &str, new: &str) -> String {
+    let lower = text.to_lowercase();
+    let pat = old.to_lowercase();
+    let mut out = String::new();
+    let mut i = 0;
+    while let Some(k) = lower[i..].find(&pat) {
+        let s = i + k;
+        let e = s + pat.len();
+        let before_ok = text[..s].chars().last().map(|c| !(c.is_alphanumeric() || c == '_' || c == '.')).unwrap_or(true);
+        let after_ok = text[e..].chars().next().map(|c| !(c.is_alphanumeric() || c == '_' || c == '.')).unwrap_or(true);
+        out.push_str(&text[i..s]);
+        if before_ok && after_ok {
+            out.push_str(new);
+        } else {
+            out.push_str(&text[s..e]);
+        }
+        i = e;
+    }
+    out.push_str(&text[i..]);
+    out
+}
+
+fn case_json(word: &[Op]) -> Value {
+    json!({"ops": word})
+}
+
+pub fn run(run: &mut Run) {
+    let thorough = run.tier.thorough();
+    let alpha = alphabet();
+    let a = alpha.len();
+    let max_len = if thorough { 3 } else { 2 };
+    // anchor: the seed workbook itself computes what the names say (the words compare before/after only)
+    {
+        let um = UserModel::from_bytes(seed_bytes(), "en").expect("seed");
+        let got: Vec<String> = snap(&um).readers.values().map(|(_, v)| v.clone()).collect();
+        let want = ["14.0", "10.25", "25.5", "200.0", "10.25", "17.25", "12.0"];
+        if got != want {
+            run.add(Disagreement {
+                sig: "seed-workbook-values".into(),
+                case: json!({"ops": []}),
+                detail: format!("the cells reading the names compute {:?}, expected {:?}", got, want),
+            });
+        }
+    }
+    // prefixes of length 2 (thorough) use the alphabet without the operations that only repeat another one
+    // with a different argument (two of the languages, two of the locales, two row edits)
+    let redundant = |o: &Op| match o {
+        Op::Language(l) => l == "es" || l == "it",
+        Op::Locale(l) => l == "es" || l == "it",
+        Op::InsertRows(2, ..) | Op::DeleteRows(0, ..) => true,
+        // 10-30 ms each; as a prefix it is covered by the words of length 2
+        Op::XlsxRoundTrip => true,
+        _ => false,
+    };
+    let mut prefixes: Vec<Vec<usize>> = vec![vec![]];
+    let mut level: Vec<Vec<usize>> = vec![vec![]];
+    for depth in 1..max_len {
+        let mut next = vec![];
+        for p in &level {
+            for i in 0..a {
+                if depth == 2 && (redundant(&alpha[i]) || redundant(&alpha[p[0]])) {
+                    continue;
+                }
+                let mut q = p.clone();
+                q.push(i);
+                next.push(q);
+            }
+        }
+        prefixes.extend(next.iter().cloned());
+        level = next;
+    }
+    let res = crate::env::par_units(prefixes.len(), |u| {
+        let prefix = &prefixes[u];
+        let mut found: BTreeMap<String, (u64, Value, String)> = BTreeMap::new();
+        let (mut cases, mut cut, mut compared, mut unspec, mut steps) = (0u64, 0u64, 0u64, 0u64, 0u64);
+        let mut outcomes = HashSet::new();
+        for op in &alpha {
+            let mut word: Vec<Op> = prefix.iter().map(|i| alpha[*i].clone()).collect();
+            word.push(op.clone());
+            let o = judge(&word);
+            if o.cut {
+                cut += 1;
+                continue;
+            }
+            cases += 1;
+            steps += word.len() as u64;
+            compared += o.compared;
+            unspec += o.unspecified;
+            outcomes.insert(o.outcome);
+            for (sig, detail) in o.found {
+                match found.get_mut(&sig) {
+                    Some(e) => e.0 += 1,
+                    None => {
+                        found.insert(sig, (1, case_json(&word), detail));
+                    }
+                }
+            }
+        }
+        (found, cases, cut, compared, unspec, steps, outcomes)
+    });
+    let mut outcomes = HashSet::new();
+    let (mut cut, mut compared, mut unspec) = (0u64, 0u64, 0u64);
+    for r in res {
+        match r {
+            Ok((found, cases, c, cmp, un, steps, oc)) => {
+                run.evaluations += cases;
+                run.transitions += steps;
+                cut += c;
+                compared += cmp;
+                unspec += un;
+                outcomes.extend(oc);
+                for (sig, (n, case, detail)) in found {
+                    run.add(Disagreement { sig: sig.clone(), case, detail });
+                    if let Some(e) = run.clusters.get_mut(&sig) {
+                        e.0 += n - 1;
+                    }
+                }
+            }
+            Err(e) => run.machinery_errors.push(format!("unit panicked: {}", e)),
+        }
+    }
+    run.traces = run.evaluations;
+    run.states = outcomes.len() as u64;
+    run.distinct_outcomes = outcomes.len() as u64;
+    run.nontrivial = run.evaluations;
+    run.bound = json!({
+        "alphabet_size": a,
+        "alphabet": alpha,
+        "word_length": format!("<={}", max_len),
+        "prefix_alphabet_of_length_3_words": "the alphabet without Language(es,it), Locale(es,it), InsertRows(2,..), DeleteRows(0,..), XlsxRoundTrip in the first two positions; full alphabet in the last position",
+        "names": ["gcell (global cell)", "grange (global range)", "gcell (local to Sheet2, shadows)", "addtax (LAMBDA with a decimal and a two-argument SUM)"],
+        "readers": 7,
+        "histories_cut_at_refused_operation": cut,
+        "comparisons": compared,
+        "unspecified_not_compared": unspec,
+    });
+    run.rule = "every word of the stated length over the alphabet on a fresh copy of the workbook (prefix all Ok); the last operation is judged: stored English formula of every name (expected: unchanged, or the sheet qualifier rewritten by a rename of its sheet), presence of every name, value of every reading cell, and for a rename of a name the text of every reading cell. Every case is non-trivial (every name is read on every sheet)".into();
+    run.sample(case_json(&[alpha[3].clone()]));
+    run.sample(case_json(&[alpha[8].clone(), alpha[11].clone()]));
+    run.sample(case_json(&[alpha[a - 5].clone(), alpha[a - 6].clone()]));
+    run.exhaustive = true;
+    run.assume("not compared (counted as unspecified): stored formulas of names over a sheet whose rows are inserted/deleted or that is deleted, names scoped to a deleted sheet, values of readers after a re-scope and of readers of names over a deleted sheet / deleted rows");
+    run.assume("after the xlsx import the harness sets the workbook's previous locale again (the importer takes its locale from the caller)");
+    run.assume("names are identified by (name, scope position); sheet positions follow the operation (move, delete, duplicate)");
+}
+
+pub fn replay(case: &Value) -> Vec<Disagreement> {
+    let word: Vec<Op> = match serde_json::from_value(case["ops"].clone()) {
+        Ok(w) => w,
+        Err(_) => return vec![],
+    };
+    if word.is_empty() {
+        let um = UserModel::from_bytes(seed_bytes(), "en").expect("seed");
+        let got: Vec<String> = snap(&um).readers.values().map(|(_, v)| v.clone()).collect();
+        let want = ["14.0", "10.25", "25.5", "200.0", "10.25", "17.25", "12.0"];
+        if got != want {
+            return vec![Disagreement {
+                sig: "seed-workbook-values".into(),
+                case: case.clone(),
+                detail: format!("the cells reading the names compute {:?}, expected {:?}", got, want),
+            }];
+        }
+        return vec![];
+    }
+    judge(&word)
+        .found
+        .into_iter()
+        .map(|(sig, detail)| Disagreement { sig, case: case.clone(), detail })
+        .collect()
 }
